@@ -1,3 +1,4 @@
+import RossModel.Spec.Node
 import RossModel.Protocol
 /-!
 # Protocol layer: handler registry (C17), dispatch (C15), send routing (C16)
@@ -128,11 +129,9 @@ theorem remove_spec (s : Proto) (hs : s.Sorted) (id : Nat) :
 
 /-! ## C15 / C16: dispatch and routing -/
 
-def callsOf (l : List LogEntry) : List (Nat × Packet) :=
-  l.filterMap fun | .call t p => some (t, p) | _ => none
 
-def txOf (l : List LogEntry) : List Packet :=
-  l.filterMap fun | .tx p _ => some p | _ => none
+
+
 
 @[simp] theorem callsOf_append (a b : List LogEntry) : callsOf (a ++ b) = callsOf a ++ callsOf b := by
   simp [callsOf]
@@ -163,9 +162,7 @@ theorem handlerSends_spec (s : Proto) (qs : List Packet) :
     exact ⟨⟨c2.addr.trans c1.addr, c2.handlers.trans c1.handlers, c2.rxQueue.trans c1.rxQueue⟩,
       l2.trans l1, by rw [t2, t1]; simp⟩
 
-/-- the handlers a packet is delivered to -/
-def recipients (hs : List (Nat × Handler)) (owned : Bool) : List Handler :=
-  (hs.map Prod.snd).filter fun h => owned || h.captureAll
+
 
 theorem dispatch_fold (hs : List (Nat × Handler)) (st : Proto) (p : Packet) (owned : Bool) :
     let r := hs.foldl (fun st (x : Nat × Handler) =>
